@@ -269,7 +269,7 @@ class Machine:
             w = o.get("w", self.width(ty))
             return const_bits(c & ((1 << w) - 1), w)
         if o == "null":
-            return const_bits(0, 64)
+            return Ptr("null", 0)
         if o in ("undef", "poison"):
             return self.opaque_bits(self.width(ty), "undef")
         if ir.is_local(o):
@@ -309,7 +309,19 @@ class Machine:
             return tuple(a[:w])
         a = self.val(env, i.ops[0], i.ty)
         if isinstance(a, Ptr):
-            raise Unsupported("arithmetic on pointer")
+            if op == "icmp" and i.d["pred"] in ("eq", "ne"):
+                b = self.val(env, i.ops[1], i.ty)
+                if isinstance(b, Ptr):
+                    same = (a.obj == b.obj and a.off == b.off)
+                else:
+                    cb0 = to_int(b)
+                    if cb0 != 0:
+                        raise Unsupported("pointer compared with a non-null integer")
+                    same = a.obj == "null"
+                return const_bits(int(same if i.d["pred"] == "eq" else not same), 1)
+            if op == "select":
+                raise Unsupported("select on pointers")
+            raise Unsupported("arithmetic on pointer (%s at %s)" % (op, i.where()))
         b = self.val(env, i.ops[1], i.ty) if len(i.ops) > 1 else None
         if op == "xor":
             return xor_bits(a, b)
@@ -346,9 +358,19 @@ class Machine:
                 return tuple(ZERO for _ in range(n)) + tuple(a[:w - n])
             fill = a[-1] if op == "ashr" else ZERO
             return tuple(a[n:]) + tuple(fill for _ in range(n))
-        if op in ("add", "sub", "mul", "udiv", "urem"):
+        if op in ("add", "sub", "mul", "udiv", "urem", "sdiv", "srem"):
             if ca is not None and cb is not None:
                 mask = (1 << w) - 1
+
+                def sg(x):
+                    return x - (1 << w) if x >> (w - 1) else x
+                if op in ("sdiv", "srem"):
+                    x, y = sg(ca), sg(cb)
+                    if y == 0:
+                        raise Unsupported("division by zero")
+                    q = abs(x) // abs(y) * (1 if (x >= 0) == (y >= 0) else -1)
+                    r = q if op == "sdiv" else x - q * y
+                    return const_bits(r & mask, w)
                 r = {"add": ca + cb, "sub": ca - cb, "mul": ca * cb,
                      "udiv": ca // cb if cb else 0, "urem": ca % cb if cb else 0}[op] & mask
                 return const_bits(r, w)
@@ -370,6 +392,10 @@ class Machine:
             c = to_int(a)
             x = self.val(env, i.ops[1], i.ty)
             y = self.val(env, i.ops[2], i.ty)
+            if isinstance(x, Ptr) or isinstance(y, Ptr):
+                if c is None:
+                    raise Unsupported("select of pointers on symbolic data")
+                return x if c & 1 else y
             if c is None:
                 return self.opaque_bits(w, "select")
             return x if c & 1 else y
